@@ -127,7 +127,6 @@ const prelude = `(set-logic ALL)
 (define-fun bvmax64 ((a (_ BitVec 64)) (b (_ BitVec 64))) (_ BitVec 64) (ite (bvugt a b) a b))
 (define-fun bvmin64 ((a (_ BitVec 64)) (b (_ BitVec 64))) (_ BitVec 64) (ite (bvult a b) a b))
 (declare-fun interior (Int Int) Int)
-(declare-fun err_is (Iface Iface) Bool)
 `
 
 // ---------- type environment: Go types -> sorts ----------
